@@ -7,7 +7,8 @@ import C07
 
 TECHNIQUE = ("lock-depth dataflow with balance check on every function, entry-context propagation from all thread roots (public API, event thread, "
              "reload thread, slot-resolved callbacks), lockset check of every access to channel-reachable state, lock-order / no-callback-under-event-mutex "
-             "rule, condition-variable protocol and tear-down order by must-pass-through")
+             "rule, condition-variable protocol and tear-down order by must-pass-through"
+             ", exact guard on every match of the event-update lookup")
 LEVEL_TEXT = ("static: decides the lock discipline race freedom rests on, for all call paths from all thread roots of the analysed (threaded) configuration: "
               "(BAL) every function returns with the lock depths it was entered with; (GUARD) every read/write of channel, server, connection, query and "
               "cache state happens with the channel lock held, except inside construction/tear-down and for fields never written after construction; "
